@@ -68,6 +68,9 @@ def tagged_cases(draw) -> t.Any:
         if draw(st.integers(0, 5)) == 5:
             opts['allow_extra'] = True
         variants.append({'name': f"Var{i}", 'fields': fields, 'opts': opts})
+    if nvar < 4 and draw(st.integers(0, 3)) == 3:
+        # a variant that subclasses the first one (base listed first): the tag, not the class hierarchy, decides also on output
+        variants.append(cg.derived_variant(variants[0], 0, tag, vals[nvar]))
     conds = draw(st.sampled_from([(), (), (('true',),), (('true',), ('true',))]))     # Annotated[Union, Tagged(...), Condition...]
     spec = ('tagged', layout, tag, tuple(variants), conds)
     nd = cg.TaggedNode(spec)
